@@ -990,7 +990,12 @@ def s_eq(a, b, _depth=0):
     dl = i_cmp('==', la, lb)
     if dl is False:
         return False
-    return Approx(False)
+    # last resort: equality of the uninterpreted string values (facts about them come from assumed contracts)
+    try:
+        from . import builtins_model as _bm
+        return Approx(_bm.str_term(a) == _bm.str_term(b))
+    except Unsupported:
+        return Approx(False)
 
 
 def s_mul(s, n):
